@@ -458,7 +458,19 @@ func nativeReplay(r Run, replayPath string, p *sym.Program) (bool, string) {
 	}
 	out, _ := cmd.CombinedOutput()
 	s := string(out)
-	rep := strings.Contains(s, "REPLAY-PANIC") || strings.Contains(s, "REPLAY-FAIL") || strings.Contains(s, "panic:") || strings.Contains(s, "fatal error:")
+	var doc struct{ Kind, Msg string }
+	if b, err := os.ReadFile(replayPath); err == nil {
+		json.Unmarshal(b, &doc)
+	}
+	rep := false
+	switch doc.Kind {
+	case "assert":
+		rep = strings.Contains(s, "REPLAY-FAIL: "+doc.Msg)
+	case "deadlock":
+		rep = strings.Contains(s, "deadlock") || strings.Contains(s, "REPLAY-FAIL") || strings.Contains(s, "test timed out")
+	default:
+		rep = strings.Contains(s, "REPLAY-PANIC") || strings.Contains(s, "panic:") || strings.Contains(s, "fatal error:") || strings.Contains(s, "DATA RACE")
+	}
 	return rep, s
 }
 
